@@ -45,3 +45,11 @@ Import Inj.Base Inj.EncAmd64.
 Theorem C10_source_bool_stub : forall v, bool_stub v = set_nth (Z.to_nat AMD64_BOOL_VALUE_INDEX) (Z.b2z v) AMD64_BOOL_STUB.
 Proof. exact src_amd64_bool_stub. Qed.
 Print Assumptions C10_source_bool_stub.
+
+(* the library's process-wide state, as found in the current source, is what the model has: the guard, and one call counter per fake!
+   call site; no pool, table, cache or remembered address survives an injector (generated constants, tools/const_translate.py) *)
+From Inj Require SrcTieLife.
+Theorem C10_library_state_is_what_the_model_has :
+  (SrcTieLife.src_only_guard_static && SrcTieLife.src_macro_statics_are_counters)%bool = true.
+Proof. exact SrcTieLife.src_state_shape. Qed.
+Print Assumptions C10_library_state_is_what_the_model_has.
